@@ -609,6 +609,32 @@ SYNTH_STATIC = {
         return;
     }
 }''',
+    '__peek_next_if_eq': '''fn __peek_next_if_eq(_1: &mut P, _2: &T) -> Option {
+    bb0: {
+        _3 = Peekable::<I>::peek(copy _1) -> [return: bb1, unwind continue];
+    }
+    bb1: {
+        _4 = discriminant(_3);
+        switchInt(move _4) -> [0: bb5, otherwise: bb2];
+    }
+    bb2: {
+        _5 = copy ((_3 as Some).0: &T);
+        _6 = __eq_values(copy _5, copy _2) -> [return: bb3, unwind continue];
+    }
+    bb3: {
+        switchInt(move _6) -> [0: bb5, otherwise: bb4];
+    }
+    bb4: {
+        _0 = __iter_next(copy _1) -> [return: bb6, unwind continue];
+    }
+    bb5: {
+        _0 = Option::<T>::None;
+        return;
+    }
+    bb6: {
+        return;
+    }
+}''',
     '__zip_next': '''fn __zip_next(_1: &mut I) -> Option {
     bb0: {
         _2 = __adapt_inner_next(copy _1) -> [return: bb1, unwind continue];
@@ -1156,6 +1182,9 @@ def model(ex, st, c, args):
     D = ex.deref_all
     if c.startswith(('std::option::Option::', 'core::option::Option::', 'std::result::Result::', 'core::result::Result::')):
         c = c.split('::', 2)[2]
+    if ' as std::' in c or ' as core::' in c:
+        # fully qualified trait paths (as printed for function pointers such as `PartialOrd::gt`): same models as the short form
+        c = re.sub(r' as (?:std|core)::(?:cmp|ops|convert|iter|clone|default|fmt|str|string)::(?:\w+::)*(\w+)', r' as \1', c)
     B = lambda options: ex.branch(st, options)
 
     # ----- control / error plumbing
@@ -2867,7 +2896,7 @@ def call_value(ex, st, f, rest):
         from frontend import strip_generics
         sn = strip_generics(name)
         segs = sn.split('::')
-        if len(segs) >= 2 and segs[-2] in ex.p.meta.enums:
+        if len(segs) >= 2 and segs[-2] in ex.p.meta.enums and any(vn == segs[-1] for vn, _ in ex.p.meta.enums[segs[-2]]):
             return Adt(segs[-2], ex.p.meta.variant_index(segs[-2], segs[-1]), list(rest))
         if segs[-1] in ('Some',):
             return some(rest[0])
